@@ -36,9 +36,6 @@ type vfile struct {
 	hdr   string // canonical header
 	fid   string // canonical File{Header, FileId}: what DecodeHeaderAndFileID reports
 	s     *stream
-	// the model raised a quirk tag on this file: it enters one of the recorded C12 time-rule defects, whose
-	// effect on timestamps is judged by C12 only
-	quirky bool
 }
 
 func (v *vfile) frameLen() int { return v.hs + v.ds + 2 }
@@ -296,7 +293,7 @@ func soloDecode(r *report, w *world, data []byte, name string, s *stream, useMod
 	if impl.Panic != "" || impl.ErrClass != 0 || len(impl.Raw) != 1 || impl.Raw[0] == nil {
 		return nil, impl, model, nil
 	}
-	v := &vfile{data: data, hs: hs, ds: ds, name: name, s: s, quirky: len(model.Quirks) > 0}
+	v := &vfile{data: data, hs: hs, ds: ds, name: name, s: s}
 	v.hdr = canonHeader(impl.Raw[0].Header)
 	v.fid = fidCanon(impl.Raw[0])
 	v.canon = maskedCanon(impl.Raw[0])
